@@ -320,7 +320,7 @@ def log_amount(rng, hi=10 ** 30):
 # ------------------------------------------------------------------ generation
 def gen_cfg(rng):
     return dict(block=rng.choice([1, 1, 7, 1000]), style=rng.choice(["owner", "owner", "public", "mixed"]),
-                target=rng.choice([2, 3, 3, 4]))
+                target=rng.choice([2, 3, 3, 4]), twin=rng.random() < 0.6)
 
 
 def registered_ids(s):
@@ -343,7 +343,10 @@ def gen_create(rng, w, s, want_valid):
     free = [(a, b) for a in range(1, NTOK + 1) for b in range(1, NTOK + 1) if a != b and s["getpair"][(a, b)] == 0]
     taken = [(a, b) for a in range(1, NTOK + 1) for b in range(1, NTOK + 1) if a != b and s["getpair"][(a, b)] != 0]
     if want_valid and free:
-        a, b = rng.choice(free)
+        reg0 = registered_ids(s)
+        ghosts = [(p["t1"], p["t2"]) for pid, p in s["pairs"].items() if pid not in reg0]
+        ghost_free = [(a, b) for (a, b) in free if (a, b) in ghosts or (b, a) in ghosts]
+        a, b = rng.choice(ghost_free) if ghost_free and rng.random() < 0.6 else rng.choice(free)
         if s["creation"] and rng.random() < (0.6 if w.cfg["style"] != "owner" else 0.25):
             c = rng.choice(users)
         else:
@@ -424,7 +427,7 @@ def gen_multiswap(rng, w, s):
     foreign_pairs = [pid for pid in s["pairs"] if pid not in reg]
     nonpair = users + [TEMPLATE, ROUTER, OWNER]
     sim = sim_pairs(s)
-    n = rng.choice([1, 1, 1, 2, 2, 2, 2, 3, 3, 4])
+    n = rng.choice([1, 1, 2, 2, 2, 3, 3, 3, 4, 4])
     bad = rng.random()
     # starting token: one that some good pair trades
     toks = sorted({t for pid in good for t in (sim[pid]["t1"], sim[pid]["t2"])})
@@ -449,15 +452,15 @@ def gen_multiswap(rng, w, s):
     else:
         amt = rin0 * rng.choice([1, 2, 10]) + rng.randint(0, 9)
     cur = amt
-    foreign_at = rng.randrange(n) if bad < 0.14 else None
+    foreign_at = rng.randrange(n) if bad < 0.10 else None
     for i in range(n):
         cands = [pid for pid in good if cur_t in (sim[pid]["t1"], sim[pid]["t2"])]
         if foreign_at == i or not cands:
             fk = rng.random()
             fcands = [pid for pid in foreign_pairs if cur_t in (sim[pid]["t1"], sim[pid]["t2"])]
-            if fk < 0.6 and fcands:
+            if fk < 0.75 and fcands:
                 ad = rng.choice(fcands)
-            elif fk < 0.75 and foreign_pairs:
+            elif fk < 0.82 and foreign_pairs:
                 ad = rng.choice(foreign_pairs)
             elif fk < 0.9 or not reg:
                 ad = rng.choice(nonpair)
@@ -515,9 +518,22 @@ def gen_multiswap(rng, w, s):
         cur_t, cur = tw, max(0, out)
         if cur == 0:
             cur = 1
+    if 0.88 < bad <= 0.96:
+        idx = list(range(len(hops)))
+        rng.shuffle(idx)
+        for i in idx:
+            ad = hops[i][0]
+            if ad in s["pairs"]:
+                key = {s["pairs"][ad]["t1"], s["pairs"][ad]["t2"]}
+                tw_ = [pid for pid in foreign_pairs if {s["pairs"][pid]["t1"], s["pairs"][pid]["t2"]} == key and live(s["pairs"][pid])]
+                if tw_:
+                    hops[i][0] = rng.choice(tw_)
+                    if hops[i][1] == 0:
+                        hops[i][3] = 1
+                    break
     if bad > 0.985:
         hops = []
-    if 0.97 < bad <= 0.985:
+    if 0.975 < bad <= 0.985:
         amt = 0
     return ["MultiSwap", c, tin, amt, hops]
 
@@ -549,7 +565,14 @@ def gen_op(rng, w, stats):
             return op
     # foreign pairs get liquidity too, so that a swap through them would succeed if it were allowed
     pend_f = [pid for pid in foreign_pairs if not live(pairs[pid])]
-    if pend_f and rng.random() < 0.35:
+    have_twin = any(s["getpair"].get((pairs[pid]["t1"], pairs[pid]["t2"]), 0) for pid in foreign_pairs)
+    if w.cfg.get("twin") and good and not have_twin and rng.random() < 0.3:
+        g = pairs[rng.choice(good)]
+        na = w.next_pair
+        w.next_pair += 1
+        a, b = (g["t1"], g["t2"]) if rng.random() < 0.5 else (g["t2"], g["t1"])
+        return ["DeployPair", a, b, g["fee"], g["sfee"], na]
+    if pend_f and rng.random() < (0.6 if w.cfg.get("twin") else 0.35):
         st = bootstrap_step(rng, w, s, rng.choice(pend_f))
         if st:
             return st
@@ -570,20 +593,21 @@ def gen_op(rng, w, stats):
         return ["RemovePair", rng.choice([OWNER] * 4 + users), a, b]
     if roll < 0.58:
         return ["SetCreation", rng.choice([OWNER] * 4 + users), rng.random() < 0.6]
-    if roll < 0.60:
+    if roll < 0.615:
         na = w.next_pair
         w.next_pair += 1
         taken = [(a, b) for (a, b), v in s["getpair"].items() if v != 0]
-        if taken and rng.random() < 0.75:
+        if taken and rng.random() < 0.85:
             a, b = rng.choice(taken)        # same tokens as a registered pair
         else:
             a, b = rng.choice([(x, y) for x in range(0, NTOK + 1) for y in range(1, NTOK + 1)])
         f = rng.choice([300, 300, 0, 5000, 5001])
         return ["DeployPair", a, b, f, rng.choice([50, 0, f, f + 1]) if f else 0, na]
-    anyaddr = lambda: rng.choice(reg * 5 + foreign_pairs * 2 + nonpair) if (reg or foreign_pairs) else rng.choice(nonpair)
+    twins = [pid for pid in foreign_pairs if s["getpair"].get((pairs[pid]["t1"], pairs[pid]["t2"]), 0)]
+    anyaddr = lambda: rng.choice(reg * 5 + foreign_pairs * 2 + twins * 6 + nonpair) if (reg or foreign_pairs) else rng.choice(nonpair)
     if roll < 0.66:
         c = rng.choice([OWNER] * 5 + users)
-        ad = rng.choice([ROUTER] + reg * 4 + foreign_pairs * 2 + nonpair) if rng.random() < 0.9 else ROUTER
+        ad = rng.choice([ROUTER] + reg * 4 + foreign_pairs * 2 + twins * 5 + nonpair) if rng.random() < 0.9 else ROUTER
         kind = "Pause" if rng.random() < 0.35 else "Resume"
         return [kind, c, ad]
     if roll < 0.71:
